@@ -937,6 +937,10 @@ class Fxp():
                 # negative n_frac (the factor is a float): integers of more than 53 bits are scaled as exact rationals
                 conv_factor = Fraction(1, 1 << -self.n_frac)
                 _use_pyint = True
+            elif not _use_pyint and _is_int_val and val.dtype == np.uint64 and raw and 2**53 <= int(np.max(val)) < 2**63 and \
+                not (original_vdtype == int or np.issubdtype(original_vdtype, np.integer)):
+                # raw unsigned codes of more than 53 bits (below 2**63: no reinterpretation as int64) are not cast to a float value type
+                _use_pyint = True
             elif not _use_pyint and _is_int_val and (val.dtype != np.uint64 or not raw):
                 _abs_max = max(abs(int(np.max(val))), abs(int(np.min(val))))
                 if isinstance(conv_factor, int):
